@@ -21,6 +21,15 @@ with contract_pairwise (either association) / inner_product and the multipliers,
 no-op truncation setting.  The failing-input search evaluates every spelling (one segment at a time) on the recorded
 network and on a fixed family of small networks.
 
+Bond-dimension assignments are an input class of their own (`wide_bond_cases`, `mixed_bonds`): every bond of a small
+network (1x2 … 3x4 / 4x3) draws its dimension independently from {1, 2, 3, 4, 7, 8, 9, 16, 17}, so that trivial, narrow
+and wide bonds meet at one tensor, in one column pair and in one row pair (within a cost budget of the sweeps); the
+same monitors run on them against a second independent exact evaluation (`np_exact`: one np.tensordot over two named
+axes per cell on Python-int object arrays; cross-checked with `py_exact` whenever that is cheap), the model's `contract`
+/ `split` answer the same networks, and the unit ops (pairwise / ladder / inner product) get columns with such legs.
+The type of every returned value / multiplier (mpmath.mpf, as documented: column norms leave the float64 range) is
+part of the canonical outcome.
+
 Theorems (Props/C11.lean), all proved: over any commutative semiring and any grid shape / compatible bond dimensions
 the LR sweep, the RL sweep, every split-and-recombine, the rows-first merge and the columns-first merge give the same
 tensor, and the transposed network gives its transpose (interchange law + associativity of the pairwise cell); for the
@@ -33,10 +42,20 @@ all bond-index assignments) equals the grid tensor, so `contract_lr_exact`, `con
 (PaddedRows) and for chi >= every bond occurring in the sweep.
 Explored, not proved (ctx.explored): float networks (widely ranging positive magnitudes) against the exact rational
 value, and the lossless-truncation path (tiny tol) recombined with its multipliers — LAPACK is outside the model.
+Magnitude profiles (`magnitude_explore`): every tensor of a positive float network is scaled by 10^k, |k| <= 140 (two or
+three columns / rows / single tensors tiny, compensated elsewhere), chosen so that all float64 quantities of the
+documented algorithm stay representable (`shadow`) while the norms of intermediate column states — kept in mpf
+multipliers — leave the float64 range; evaluated without truncation and under settings that RUN the QR/SVD pass but
+discard nothing (tol = 1e-300 / 5e-324 / 1e-200, alone, with chi = the largest bond (+1), with masks), both
+orientations, both directions, every split, recombined segments, and truncate() itself on column states; judged
+against the exact rational value of the very float entries with a tolerance derived from the conditioning
+(A u sum_k ||L_k|| ||R_k||, cut norms computed exactly), not from the scale; mpf type of every multiplier / norm.
 """
 import contextlib
 import itertools
 import json
+import os
+import warnings
 from fractions import Fraction
 
 import numpy as np
@@ -53,8 +72,11 @@ RULE = ('random rectangular networks of 4-leg tensors: shapes 1..5 x 1..5, every
         'transposed sweeps, every split column, the full range and 2..4 consecutive column segments in every / random '
         'start/stop/step spelling (None, in-range, negative, clamped; step None/1/-1) recombined with '
         'contract_pairwise/inner_product and multipliers, no-op truncation settings (chi>=bond, chi=0, tol=0/None, all-false '
-        'mask), random start/stop/step incl. negative and out-of-range, truncating settings (model: svd), wrong-shape '
-        'mask; model exactValue (brute force) for networks with <= 20000 bond assignments; unit ops on random and '
+        'mask, chi=bond+1, checkerboard mask with chi>=bond), random start/stop/step incl. negative and out-of-range, '
+        'truncating settings (model: svd), wrong-shape mask; networks 1x2..3x4/4x3 whose bonds are drawn independently '
+        'from {1,2,3,4,7,8,9,16,17} (wide and narrow bonds mixed in one network, cost-budgeted; entries {-1,1}/small/'
+        'wide) with the same monitors against a second independent exact evaluation and the model contract/split; '
+        'columns with such legs for pairwise/ladder/inner product; model exactValue (brute force) for networks with <= 20000 bond assignments; unit ops on random and '
         'malformed MPS (non-contiguous None, non-scalar, length mismatch, incompatible bonds, broadcast bonds). '
         'non-trivial = network with at least two columns or rows and a bond of dimension > 1, or a malformed input')
 
@@ -157,6 +179,8 @@ def rand_entry(rng, mag):
         return 0
     if mag == 'small':
         return rng.randint(-3, 3)
+    if mag == 'unit':
+        return rng.choice([-1, 1, 1])
     if mag == 'pos':
         return rng.randint(1, 5)
     if r < 0.6:
@@ -175,8 +199,9 @@ def mk_tensor(rng, shape, dtype, mag):
     return a.reshape(shape)
 
 
-def gen_net(rng, R, C, dtype, mag, maxbond=3, pad=False, exact_guard=True):
-    """compatible grid; None padding at column ends; returns (tn, info)"""
+def gen_net(rng, R, C, dtype, mag, maxbond=3, pad=False, exact_guard=True, bonds=None):
+    """compatible grid; None padding at column ends; returns (tn, info).  bonds: optional callable
+    (rng, present) -> (H, V) assigning every horizontal / vertical bond its dimension (default: 1..maxbond)"""
     present = [[True] * C for _ in range(R)]
     if pad and R >= 2:
         # every column keeps one contiguous run of tensors; runs of adjacent columns overlap or touch, so that every
@@ -198,10 +223,13 @@ def gen_net(rng, R, C, dtype, mag, maxbond=3, pad=False, exact_guard=True):
                 present[r][c] = False
             for r in range(R - bot, R):
                 present[r][c] = False
-    H = [[(rng.randint(1, maxbond) if present[r][c] and present[r][c + 1] else 1) for c in range(C - 1)]
-         for r in range(R)]
-    V = [[(rng.randint(1, maxbond) if present[r][c] and present[r + 1][c] else 1) for c in range(C)]
-         for r in range(R - 1)]
+    if bonds is not None:
+        H, V = bonds(rng, present)
+    else:
+        H = [[(rng.randint(1, maxbond) if present[r][c] and present[r][c + 1] else 1) for c in range(C - 1)]
+             for r in range(R)]
+        V = [[(rng.randint(1, maxbond) if present[r][c] and present[r + 1][c] else 1) for c in range(C)]
+             for r in range(R - 1)]
     tn = np.empty((R, C), dtype=object)
     for r in range(R):
         for c in range(C):
@@ -237,6 +265,79 @@ def safe_mag(R, C, dtype, mag):
     if dtype == 'object':
         return mag
     return 'small' if R * C <= 12 else 'pos' if R * C <= 16 else None
+
+
+# --- bond-dimension assignments as an input class of their own: every bond draws its dimension independently from a set
+# that mixes the trivial, the small and the wide (around the powers of two at which array libraries switch code paths)
+
+BOND_SET = [1, 2, 3, 4, 7, 8, 9, 16, 17]
+
+
+def _pair_shape(le, ri):
+    """shape and multiply-add count of one pairwise cell (le.E summed with ri.W); None is copied through"""
+    if le is None:
+        return ri, 0
+    if ri is None:
+        return le, 0
+    return (le[0] * ri[0], ri[1], le[2] * ri[2], le[3]), le[0] * le[1] * le[2] * le[3] * ri[0] * ri[1] * ri[2]
+
+
+def sweep_ops(cols):
+    """multiply-adds of contracting the given columns (lists of 4-leg shapes or None) left to right and closing the
+    last one by the ladder: a cost model of the documented algorithm, used only to keep generated networks cheap"""
+    state, total = list(cols[0]), 0
+    for col in cols[1:]:
+        nxt = []
+        for le, ri in zip(state, col):
+            sh, ops = _pair_shape(le, ri)
+            nxt.append(sh); total += ops
+        state = nxt
+    v = None
+    for t in state:
+        if t is None:
+            continue
+        if v is None:
+            v = t
+        else:
+            total += v[0] * v[1] * v[2] * v[3] * t[1] * t[2] * t[3]
+            v = (v[0], v[1] * t[1], t[2], v[3] * t[3])
+    return total
+
+
+def net_cost(present, H, V):
+    """(multiply-adds of the dearest of the left-to-right / right-to-left / by-rows sweeps, number of tensor entries)"""
+    R, C = len(present), len(present[0])
+
+    def shape(r, c):
+        if not present[r][c]:
+            return None
+        return (V[r - 1][c] if r > 0 else 1, H[r][c] if c < C - 1 else 1,
+                V[r][c] if r < R - 1 else 1, H[r][c - 1] if c > 0 else 1)
+    cols = [[shape(r, c) for r in range(R)] for c in range(C)]
+    mirror = [[None if t is None else (t[0], t[3], t[2], t[1]) for t in col] for col in reversed(cols)]
+    rows = [[None if cols[c][r] is None else tuple(reversed(cols[c][r])) for c in range(C)] for r in range(R)]
+    entries = sum(t[0] * t[1] * t[2] * t[3] for col in cols for t in col if t is not None)
+    return max(sweep_ops(cols), sweep_ops(mirror), sweep_ops(rows)), entries
+
+
+def mixed_bonds(max_ops, max_entries, dims=None):
+    """bond assignment drawing every bond from BOND_SET (uniformly over the set, so wide and narrow bonds meet at the
+    same tensor, in the same column pair and in the same row pair); while the network is dearer than the budget one
+    bond > 1 (picked at random) steps down to the next smaller dimension of the set"""
+    dims = dims or BOND_SET
+
+    def f(rng, present):
+        R, C = len(present), len(present[0])
+        H = [[(rng.choice(dims) if present[r][c] and present[r][c + 1] else 1) for c in range(C - 1)] for r in range(R)]
+        V = [[(rng.choice(dims) if present[r][c] and present[r + 1][c] else 1) for c in range(C)] for r in range(R - 1)]
+        while True:
+            ops, entries = net_cost(present, H, V)
+            if ops <= max_ops and entries <= max_entries:
+                return H, V
+            big = [(M, r, c) for M in (H, V) for r in range(len(M)) for c in range(len(M[r])) if M[r][c] > 1]
+            M, r, c = rng.choice(big)
+            M[r][c] = max(d for d in dims if d < M[r][c])
+    return f
 
 
 # ------------------------------------------------------------------------------------------ independent exact value
@@ -287,15 +388,93 @@ def py_exact(tn):
     return sum(v for east, v in state.items() if all(x == 0 for x in east))
 
 
+def _obj(t):
+    """tensor as an object array of Python ints (float entries must hold integers); None ↦ the scalar 1"""
+    a = np.empty((1, 1, 1, 1) if t is None else t.shape, dtype=object)
+    if t is None:
+        a[...] = 1
+    else:
+        flat = a.reshape(-1)
+        for i, v in enumerate(t.reshape(-1)):
+            flat[i] = int(v)
+    return a
+
+
+def np_states(tn, open_west=False, conv=None):
+    """the second independent exact evaluation, cheap for wide bonds: column by column, row by row, one np.tensordot
+    over two explicitly named axes (this row's west leg and the running vertical leg) of an object array of Python
+    ints with one axis per row — no reshape, no merged legs, nothing of qecsim.  Returns the boundary state after every
+    column (axes: east leg of every row); with open_west the west legs of column 0 stay open (axes: west legs of all
+    rows, then east legs)."""
+    R, C = tn.shape
+    wd = [(1 if tn[r, 0] is None else tn[r, 0].shape[3]) if open_west and C else 1 for r in range(R)]
+    n0 = 1
+    for d in wd:
+        n0 *= d
+    state = np.empty(n0, dtype=object)
+    if open_west:   # identity on the west legs: axes (w'_0.., w_0..)
+        state = np.empty((n0, n0), dtype=object)
+        state[...] = 0
+        for i in range(n0):
+            state[i, i] = 1
+        state = state.reshape(tuple(wd) + tuple(wd))
+    else:
+        state[...] = 1
+        state = state.reshape((1,) * R)
+    lead = R if open_west else 0
+    conv = conv or _obj
+    out = []
+    for c in range(C):
+        a = state.reshape(state.shape + (1,))
+        for r in range(R):
+            t = conv(tn[r, c])
+            a = np.tensordot(a, t, axes=([lead + r, a.ndim - 1], [3, 0]))   # remaining axes …, then (e, s)
+            a = np.moveaxis(a, -2, lead + r)
+        if a.shape[-1] != 1:
+            raise ValueError('incompatible network')
+        state = a[..., 0]
+        out.append(state)
+    return out
+
+
+def np_exact(tn):
+    R, C = tn.shape
+    if C == 0:
+        return 1
+    last = np_states(tn)[-1]
+    if last.size != 1:
+        raise ValueError('incompatible network')
+    return int(last.reshape(-1)[0])
+
+
+def exact_value(tn):
+    """exact value of an integer network: the pure-Python transfer sweep for small bonds, the tensordot sweep for wide
+    ones; both (they share no code) whenever the first is cheap, and they must agree"""
+    entries = sum(t.size for t in tn.flatten() if t is not None)
+    wide = any(max(t.shape) > 3 for t in tn.flatten() if t is not None)
+    if not wide:
+        return py_exact(tn)
+    v = np_exact(tn)
+    if entries <= 300:
+        w = py_exact(tn)
+        if w != v:
+            raise core.Infra('the two independent exact evaluations disagree: {} vs {}'.format(v, w))
+    return v
+
+
 # ------------------------------------------------------------------------------------------ real code, canonical outcomes
 
 def canon_full(v):
     i = cint(v)
+    if not isinstance(v, mp.mpf):   # documented :rtype: mpmath.mpf (the product with the mpf multiplier)
+        return 'ok s not-mpf:{}:{!r}'.format(type(v).__name__, v)
     return 'ok s ' + (str(i) if i is not None else 'nonint:{!r}'.format(v))
 
 
 def canon_part(res, mult):
     m = cint(mult)
+    if not isinstance(mult, mp.mpf):   # the multiplier carries norms that may leave the float64 range
+        m = 'not-mpf:{}'.format(type(mult).__name__)
     return 'ok p {} {}'.format(m if m is not None else 'nonint', 'None' if res is None else wire_mps(res))
 
 
@@ -453,7 +632,10 @@ def noop_settings(rng, tn, bond_cap):
     R, C = tn.shape
     allfalse = np.zeros((R, C), dtype=bool)
     alltrue = np.ones((R, C), dtype=bool)
+    checker = np.array([[(r + c) % 2 == 0 for c in range(C)] for r in range(R)], dtype=bool).reshape(R, C)
     return [
+        ('chi=bond+1', dict(chi=bond_cap + 1)),
+        ('mask=checker,chi>=bond', dict(chi=bond_cap, mask=checker)),
         ('chi>=bond', dict(chi=bond_cap)),
         ('chi=0', dict(chi=0)),
         ('tol=0', dict(tol=0.0)),
@@ -486,7 +668,7 @@ def property_battery(tn, rng=None, settings=True, ranges='sample'):
     import random as _r
     rng = rng or _r.Random(0)
     R, C = tn.shape
-    exact = py_exact(tn)
+    exact = exact_value(tn)
     want = 'ok s ' + str(round_like_impl(exact))
     sh, st = wire_net(tn)
     base = {'net_shape': sh, 'net_sites': st, 'dtype': net_dtype(tn), 'exact_value': str(exact)}
@@ -701,10 +883,84 @@ def run(ctx):
             ctx.case('c11 nassign {} {}'.format(sh, st), str(nass), nontrivial=False)
             ctx.count('exact_assignments', len(str(nass)))
     ctx.count('exact_networks', exact_done)
+    wide_bond_cases(ctx)
     unit_cases(ctx)
     incompatible_cases(ctx)
     float_explore(ctx)
+    magnitude_explore(ctx)
+    if os.environ.get('QV_EXTRA_KNOWN'):  # development aid: candidate known_findings entries under evaluation
+        ctx.known = list(ctx.known) + json.load(open(os.environ['QV_EXTRA_KNOWN'])).get('findings', [])
+    float_range_boundary(ctx)
     return ctx.finish(RULE, search=search)
+
+
+WIDE_SHAPES = [(1, 2), (1, 3), (2, 1), (3, 1), (2, 2), (2, 2), (2, 3), (3, 2), (3, 3), (3, 3), (2, 4), (4, 2), (3, 4),
+               (4, 3)]
+
+
+def tn_cost(tn):
+    R, C = tn.shape
+    cols = [[None if tn[r, c] is None else tuple(tn[r, c].shape) for r in range(R)] for c in range(C)]
+    mirror = [[None if t is None else (t[0], t[3], t[2], t[1]) for t in col] for col in reversed(cols)]
+    rows = [[None if cols[c][r] is None else tuple(reversed(cols[c][r])) for c in range(C)] for r in range(R)]
+    return max(sweep_ops(cols), sweep_ops(mirror), sweep_ops(rows))
+
+
+def gen_wide_net(rng, R, C, dtype, mag, pad=False, big=False):
+    """network whose bonds are drawn from BOND_SET (mixed_bonds) within a cost budget that depends on the dtype the
+    entries end up in (Python-int object arrays are ~100x dearer per multiply-add than int64 / float64)"""
+    cheap = (2e4, 1500) if big else (4e3, 600)
+    fast = (4e5, 3000) if big else (5e4, 900)
+    tn, info = gen_net(rng, R, C, dtype, mag, pad=pad, bonds=mixed_bonds(*(cheap if dtype == 'object' else fast)))
+    if info['dtype'] == 'object' and tn_cost(tn) > cheap[0]:
+        tn, info = gen_net(rng, R, C, 'object', mag, pad=pad, bonds=mixed_bonds(*cheap))
+    return tn, info
+
+
+def wide_bond_cases(ctx):
+    """bond-dimension assignments as a class: every bond of a small network (1x2 … 3x4 / 4x3) draws its dimension from
+    BOND_SET, so that trivial, narrow and wide bonds meet at one tensor / in one column pair / in one row pair.  For
+    each network: the property on the real code against the independent exact value (property_battery: all sweeps,
+    splits, spelled ranges and segments, no-op settings) and the correspondence of both sweeps, the transposed sweep,
+    one split with its two partial results, one spelled range and one no-op setting with the model's `contract`."""
+    from qecsim.tensortools import mps2d
+    rng = ctx.rng
+    for it in range(ctx.scale(150, 1500)):
+        R, C = WIDE_SHAPES[it] if it < len(WIDE_SHAPES) else rng.choice(WIDE_SHAPES)
+        dtype = rng.choice(['int64', 'object', 'float64', 'float64'])
+        mag = rng.choice(['small', 'wide']) if dtype == 'object' else rng.choice(['unit', 'small', 'small'])
+        tn, info = gen_wide_net(rng, R, C, dtype, mag, pad=rng.random() < 0.25, big=rng.random() < 0.3)
+        sh, st = wire_net(tn)
+        dtype = info['dtype']
+        meta = {'net_shape': sh, 'net_sites': st, 'dtype': dtype}
+        ctx.count('wide_shape', sh); ctx.count('wide_dtype', dtype); ctx.count('wide_maxbond', info['maxbond'])
+        dims = sorted(set(d for t in tn.flatten() if t is not None for d in t.shape))
+        ctx.count('wide_distinct_dims', len(dims))
+        ctx.count('wide_mixes_ge8_and_lt8', int(any(d >= 8 for d in dims) and any(1 < d < 8 for d in dims)))
+        fail = property_battery(tn, rng)
+        if fail:
+            ctx.monitor_fail(fail['what'], fail, key='mps2d.contract:' + fail.get('call', ''))
+        ctx.case(contract_line(tn), impl_contract(tn), meta=meta, post=post_full)
+        ctx.case(contract_line(tn, step=-1), impl_contract(tn, step=-1), meta=meta, post=post_full)
+        tnt = mps2d.transpose(tn)
+        tsh, tst = wire_net(tnt)
+        ctx.case(contract_line(tnt), impl_contract(tnt),
+                 meta={'net_shape': tsh, 'net_sites': tst, 'dtype': dtype, 'transposed_of': meta}, post=post_full)
+        if C >= 2:
+            k = rng.randint(1, C - 1)
+            ctx.case('c11 split {} {} {} N N N'.format(sh, st, k), impl_split(tn, k), meta=dict(meta, k=k),
+                     post=post_split)
+            ctx.case(contract_line(tn, stop=k), impl_contract(tn, stop=k), meta=meta)
+            ctx.case(contract_line(tn, start=-1, stop=k - 1, step=-1),
+                     impl_contract(tn, start=-1, stop=k - 1, step=-1), meta=meta)
+            lo = rng.randint(0, C - 1)
+            hi = rng.randint(lo + 1, C if lo > 0 else C - 1)
+            sp = rng.choice(range_spellings(lo, hi, C))
+            ctx.case(contract_line(tn, start=sp[0], stop=sp[1], step=sp[2]),
+                     impl_contract(tn, start=sp[0], stop=sp[1], step=sp[2]),
+                     meta=dict(meta, args=[None, None] + list(sp)))
+        name, kw = rng.choice(noop_settings(rng, tn, max_bond_cap(tn)))
+        ctx.case(contract_line(tn, **kw), impl_contract(tn, **kw), meta=dict(meta, setting=name), post=post_full)
 
 
 def rand_mps(rng, L, dtype='int64', holes='ends'):
@@ -727,6 +983,25 @@ def rand_mps(rng, L, dtype='int64', holes='ends'):
         out.append(mk_tensor(rng, (n, e, s, w), dtype, 'small'))
         prev_s = s
     return out
+
+
+def rand_mps_wide(rng, L):
+    """a None-free column whose vertical bonds match and whose four legs draw their dimensions from BOND_SET; the
+    dimensions step down until the column has <= 1500 entries and its ladder contraction <= 3000 entries"""
+    while True:
+        v = [1] + [rng.choice(BOND_SET) for _ in range(L - 1)] + [1]
+        if rng.random() < 0.5:
+            v[0] = rng.choice([1, 2, 3])
+        if rng.random() < 0.5:
+            v[-1] = rng.choice([1, 2, 3])
+        e = [rng.choice(BOND_SET) for _ in range(L)]
+        w = [rng.choice([1, 1, 1, 2, 3]) for _ in range(L)]
+        pe = pw = 1
+        for x, y in zip(e, w):
+            pe *= x; pw *= y
+        if sum(v[i] * e[i] * v[i + 1] * w[i] for i in range(L)) <= 1500 and v[0] * pe * pw * v[-1] <= 3000:
+            break
+    return [mk_tensor(rng, (v[i], e[i], v[i + 1], w[i]), 'int64', 'small') for i in range(L)]
 
 
 def unit_cases(ctx):
@@ -788,6 +1063,30 @@ def unit_cases(ctx):
         def sc():
             return 'ok ' + str(cint(tt_tsr.as_scalar(t)))
         ctx.case('c11 scalar ' + wire_t(t), guarded(sc), nontrivial=True)
+    # columns whose legs draw their dimensions from BOND_SET (wide and narrow legs side by side in one column)
+    for _ in range(ctx.scale(150, 2000)):
+        L = rng.randint(1, 3)
+        m = rand_mps_wide(rng, L)
+        wm = wire_mps(m)
+        out = guarded(lambda: 'ok ' + wire_t(tt_mps.contract_ladder(m)))
+        ctx.case('c11 ladder ' + wm, out, nontrivial=(L > 1), meta={'mps': wm})
+        ctx.count('ladder_outcome', 'wide:' + out.split(' ')[0])
+        r, pn = [], 1
+        for i, t in enumerate(m):
+            ps = 1 if i == L - 1 else rng.choice([1, 2, 3, 4])
+            r.append(mk_tensor(rng, (pn, rng.choice([1, 1, 2]), ps, t.shape[1]), 'int64', 'small'))
+            pn = ps
+        wr = wire_mps(r)
+        out = guarded(lambda: 'ok ' + wire_mps(tt_mps.contract_pairwise(m, r)))
+        ctx.case('c11 pairwise {} {}'.format(wm, wr), out, meta={'l': wm, 'r': wr})
+        ctx.count('pairwise_outcome', 'wide:' + out.split(' ')[0])
+
+        def ipw():
+            v = cint(tt_mps.inner_product(m, r))
+            return 'ok ' + (str(v) if v is not None else 'nonint')
+        out = guarded(ipw)
+        ctx.case('c11 inner {} {}'.format(wm, wr), out, meta={'l': wm, 'r': wr})
+        ctx.count('inner_outcome', 'wide:' + out.split(' ')[0])
     # proper bra / ket pairs (inner product defined), optionally padded with None at the same ends
     for _ in range(ctx.scale(200, 3000)):
         L = rng.randint(1, 5)
@@ -949,6 +1248,625 @@ def float_explore(ctx):
                           'mpmath mpf multiplication rounds once to mp.prec bits']
 
 
+# ------------------------------------------------------------------------------------------ explored: magnitude profiles
+# Float networks whose tensors carry scale factors 10^k, k up to +-140, such that every quantity the documented
+# algorithm holds in a float64 stays representable while the norms of intermediate column states (which the real code
+# keeps in mpmath.mpf multipliers) leave the float64 range; evaluated without truncation and under truncation settings
+# that RUN the QR/SVD pass but discard nothing (vanishing positive tol, with chi = / > the largest bond, with masks).
+# Judged against the exact rational value of the very float entries, with a tolerance derived from the conditioning:
+#  * without truncation every operation is a product / sum of non-negative numbers: componentwise relative error,
+#    |v - exact| <= 1e-9 exact;
+#  * the QR/SVD pass is norm-wise backward stable on the column state |L_k> (relative to ||L_k||, whatever the scale of
+#    the tensors - scale factors commute with every step); an error d|L_k> moves the value <L_k|R_k> by at most
+#    ||d L_k|| ||R_k||, so |v - exact| <= A u sum_k ||L_k|| ||R_k||  (u = 2^-53; the cut norms are computed exactly);
+#    for recombined segments (middle segments are operators with internal cuts of their own), and when a cut state
+#    vanishes identically, the same with (number of tensors) * product of the Frobenius norms of all tensors, which
+#    bounds every such product of norms.
+
+U = 2.0 ** -53
+A_RUN = 1e5             # calibrated: largest observed ratio on the unchanged tree is recorded in the evidence
+SQ_LIMIT, PLAIN_LIMIT = 140, 280   # decimal exponents a float64 may carry where it is squared (norms) / merely stored
+
+
+def integerise(tn):
+    """every float64 is m * 2^e exactly: per tensor the smallest exponent is pulled out.  Returns the network with
+    Python-int entries and the matrix of pulled-out binary exponents (None sites: exponent 0)"""
+    import math
+    R, C = tn.shape
+    out = np.empty((R, C), dtype=object)
+    E = [[0] * C for _ in range(R)]
+    for r in range(R):
+        for c in range(C):
+            t = tn[r, c]
+            if t is None:
+                out[r, c] = None
+                continue
+            me = []
+            for v in t.reshape(-1):
+                v = float(v)
+                if v == 0:
+                    me.append((0, None))
+                else:
+                    f, x = math.frexp(v)
+                    me.append((int(math.ldexp(f, 53)), x - 53))
+            e0 = min((e for m, e in me if e is not None), default=0)
+            a = np.empty(len(me), dtype=object)
+            for i, (m, e) in enumerate(me):
+                a[i] = 0 if e is None else m << (e - e0)
+            out[r, c] = a.reshape(t.shape)
+            E[r][c] = e0
+    return out, E
+
+
+def mirror_net(tn):
+    """columns reversed, east and west legs swapped (own code, not qecsim)"""
+    R, C = tn.shape
+    out = np.empty((R, C), dtype=object)
+    for r in range(R):
+        for c in range(C):
+            t = tn[r, C - 1 - c]
+            out[r, c] = None if t is None else np.transpose(t, (0, 3, 2, 1))
+    return out
+
+
+def transpose_net(tn):
+    """rows and columns swapped, (n, e, s, w) -> (w, s, e, n) (own code, not qecsim)"""
+    R, C = tn.shape
+    out = np.empty((C, R), dtype=object)
+    for r in range(R):
+        for c in range(C):
+            t = tn[r, c]
+            out[c, r] = None if t is None else np.transpose(t, (3, 2, 1, 0))
+    return out
+
+
+def fro(a):
+    return mp.sqrt(mp.mpf(sum(int(x) * int(x) for x in a.reshape(-1))))
+
+
+def sweep_condition(tni):
+    """(exact value, sum over the column cuts k of ||L_k|| ||R_k||) of an integer network"""
+    R, C = tni.shape
+    left = np_states(tni)
+    right = np_states(mirror_net(tni))
+    cs = mp.mpf(0)
+    for k in range(1, C):
+        cs += fro(left[k - 1]) * fro(right[C - k - 1])
+    return int(left[-1].reshape(-1)[0]), cs, all(fro(x) != 0 for x in left[:-1]) and all(fro(x) != 0 for x in right[:-1])
+
+
+def tensor_norm_bound(tni):
+    """(number of tensors) * product of the Frobenius norms of all tensors: bounds every ||L_k|| ||R_k|| and every
+    product of segment norms (the Frobenius norm is submultiplicative under contraction)"""
+    n, p = 0, mp.mpf(1)
+    for t in tni.flatten():
+        if t is not None:
+            n += 1
+            p *= fro(t)
+    return n * p
+
+
+def block_operator(tni, lo, hi, limit=20000, conv=None):
+    """entries of the contraction of columns lo..hi-1 with open west and east legs (axes: west legs of all rows, then
+    east legs); None when it has more than `limit` entries"""
+    R, C = tni.shape
+    n = 1
+    for r in range(R):
+        n *= (1 if tni[r, lo] is None else tni[r, lo].shape[3]) * (1 if tni[r, hi - 1] is None else tni[r, hi - 1].shape[1])
+    if n > limit:
+        return None
+    return np_states(tni[:, lo:hi], open_west=True, conv=conv)[-1]
+
+
+def dec_exp(tn):
+    """decimal exponent of the largest entry of every tensor (None / zero tensors: 0)"""
+    import math
+    R, C = tn.shape
+    K = [[0.0] * C for _ in range(R)]
+    for r in range(R):
+        for c in range(C):
+            if tn[r, c] is not None:
+                m = float(np.abs(tn[r, c]).max()) if tn[r, c].size else 0.0
+                K[r][c] = math.log10(m) if m > 0 else 0.0
+    return K
+
+
+def shadow(K, cols, runs, full):
+    """float-range shadow of the documented algorithm on per-row decimal exponents: the state of row r carries
+    exponent s_r; pairing with a column adds that column's exponents; a running truncation pass (runs(c): tol is truthy
+    and the mask selects a site of the paired column c) takes norms (squares:
+    SQ_LIMIT) and leaves a normalised state (exponent 0), the norm going to the mpf multiplier; otherwise the product
+    is merely stored (PLAIN_LIMIT); a full contraction ends with the ladder over the rows (prefix sums).
+    Returns None when some float64 quantity would leave its range, else (s, largest |exponent| of a column norm)"""
+    R = len(K)
+    cols = list(cols)
+    s = [K[r][cols[0]] for r in range(R)]
+    if max(abs(x) for x in s) > SQ_LIMIT:
+        return None
+    worst = 0.0
+    for j, c in enumerate(cols[1:], 1):
+        p = [s[r] + K[r][c] for r in range(R)]
+        if runs(c) and not (full and j == len(cols) - 1):
+            if max(abs(x) for x in p) > SQ_LIMIT:
+                return None
+            worst = max(worst, abs(sum(p)))
+            s = [0.0] * R
+        else:
+            if max(abs(x) for x in p) > PLAIN_LIMIT:
+                return None
+            s = p
+    if full and not ladder_ok(s):
+        return None
+    return s, worst
+
+
+def ladder_ok(s):
+    acc = 0.0
+    for x in s:
+        acc += x
+        if abs(acc) > PLAIN_LIMIT:
+            return False
+    return True
+
+
+def seg_cols(sp, C):
+    return list(range(*slice(*sp).indices(C)))
+
+
+def mag_domain(K, ev):
+    """is the evaluation `ev` inside the float64 range of the documented algorithm (see shadow)?  Returns None or the
+    largest |decimal exponent| of a column norm that goes to an mpf multiplier"""
+    R, C = len(K), len(K[0])
+    kind = ev['kind']
+    mask = ev.get('mask')
+
+    def runs(c):
+        if ev.get('tol') is None:
+            return False
+        if mask is None:
+            return True
+        return any(mask) if kind == 'truncate' else any(row[c] for row in mask)
+    if kind == 'full':
+        cols = range(C) if ev.get('step') in (None, 1) else range(C - 1, -1, -1)
+        r = shadow(K, cols, runs, True)
+        return None if r is None else r[1]
+    if kind == 'split':
+        segs = [list(range(0, ev['k'])), list(range(C - 1, ev['k'] - 1, -1))]
+    elif kind == 'parts':
+        segs = [seg_cols(sp, C) for sp in ev['sps']]
+    else:
+        segs = [list(range(ev['lo'], ev['hi']))]
+    worst, tot = 0.0, [0.0] * R
+    if kind == 'truncate' and len(segs[0]) == 1 and runs(0):
+        worst = abs(sum(K[r][segs[0][0]] for r in range(R)))
+    for cols in segs:
+        r = shadow(K, cols, runs, False)
+        if r is None:
+            return None
+        worst = max(worst, r[1])
+        tot = [a + b for a, b in zip(tot, r[0])]
+    if max(abs(x) for x in tot) > PLAIN_LIMIT or (kind != 'truncate' and not ladder_ok(tot)):
+        return None
+    return worst
+
+
+def mag_kw(ev, one_d=False):
+    kw = {}
+    if ev.get('tol') is not None:
+        kw['tol'] = float.fromhex(ev['tol'])
+    if ev.get('chi') is not None:
+        kw['chi'] = ev['chi']
+    if ev.get('mask') is not None:
+        kw['mask'] = np.array(ev['mask'], dtype=bool)
+    return kw
+
+
+def mag_eval(tn, ev):
+    """one recorded evaluation on the real code: (value, list of type complaints).  For kind 'truncate': value is
+    (truncated mps, norm, the pass must have run)"""
+    from qecsim.tensortools import mps2d, mps as tt_mps
+    X = mps2d.transpose(tn) if ev.get('transposed') else tn
+    kw = mag_kw(ev)
+    types = []
+
+    def chk(name, x):
+        if not isinstance(x, mp.mpf):
+            types.append('{} is a {}, not an mpmath.mpf'.format(name, type(x).__name__))
+    kind = ev['kind']
+    if kind == 'full':
+        v = mps2d.contract(X, step=ev.get('step'), **kw)
+        chk('the value of the full contraction', v)
+    elif kind == 'split':
+        k = ev['k']
+        l, ml = mps2d.contract(X, stop=k, **kw)
+        r, mr = mps2d.contract(X, start=-1, stop=k - 1, step=-1, **kw)
+        chk('the multiplier of the left partial contraction', ml)
+        chk('the multiplier of the right partial contraction', mr)
+        v = tt_mps.inner_product(l, r) * ml * mr
+    elif kind == 'parts':
+        ps = [mps2d.contract(X, start=a, stop=b, step=c, **kw) for a, b, c in ev['sps']]
+        for p in ps:
+            chk('the multiplier of a partial contraction', p[1])
+        if ev.get('assoc', 'left') == 'left':
+            acc = ps[0][0]
+            for p in ps[1:-1]:
+                acc = tt_mps.contract_pairwise(acc, p[0])
+            v = tt_mps.inner_product(acc, ps[-1][0])
+        else:
+            acc = ps[-1][0]
+            for p in ps[-2:0:-1]:
+                acc = tt_mps.contract_pairwise(p[0], acc)
+            v = tt_mps.inner_product(ps[0][0], acc)
+        for p in ps:
+            v = v * p[1]
+    else:  # 'truncate': the columns lo..hi-1 (one raw column, or the first pair) as one MPS / MPO
+        mps = list(X[:, ev['lo']])
+        for c in range(ev['lo'] + 1, ev['hi']):
+            mps = tt_mps.contract_pairwise(mps, list(X[:, c]))
+        res, norm = tt_mps.truncate(mps, **kw)
+        ran = bool(len(mps)) and (kw.get('mask') is None or bool(np.any(kw['mask'])))
+        if ran:
+            chk('the norm returned by truncate (the pass ran)', norm)
+        v = (res, norm)
+    return v, types
+
+
+def to_fraction(v):
+    """exact rational of a returned number; None for nan / inf"""
+    if isinstance(v, mp.mpf):
+        return Fraction(*_mpf_frac(v)) if mp.isfinite(v) else None
+    v = float(v)
+    return Fraction(v) if v == v and abs(v) != float('inf') else None
+
+
+def frac_mpf(fr):
+    return mp.mpf(fr.numerator) / mp.mpf(fr.denominator)
+
+
+class MagOracle:
+    """exact values and conditioning of one float network (both orientations), computed once"""
+
+    def __init__(self, tn):
+        self.tni, E = integerise(tn)
+        self.E = E
+        self.etot = sum(sum(row) for row in E)
+        self.or_ = {}
+
+    def net(self, transposed):
+        if transposed not in self.or_:
+            X = transpose_net(self.tni) if transposed else self.tni
+            EX = [list(x) for x in zip(*self.E)] if transposed else self.E
+            value, cs, nondegenerate = sweep_condition(X)
+            if not nondegenerate:   # a cut state vanishes identically although its tensors do not: rounding noise of the
+                cs = tensor_norm_bound(X)   # pass is relative to the tensors, not to the (zero) state
+            self.or_[transposed] = (X, EX, value, cs)
+        return self.or_[transposed]
+
+    def judge(self, ev, got):
+        """-> (ok, detail).  All comparisons in units of 2^etot (exact) resp. mpf (bounds)."""
+        X, EX, value, cs = self.net(bool(ev.get('transposed')))
+        running = ev.get('tol') is not None
+        if ev['kind'] == 'truncate':
+            return self.judge_truncate(ev, got, X, EX)
+        fr = to_fraction(got)
+        if fr is None:
+            return False, {'got': str(got), 'exact': self.exact_str(value), 'why': 'not a finite number'}
+        scaled = fr / (Fraction(2) ** self.etot)
+        err = frac_mpf(abs(scaled - value))
+        if not running:
+            bound = mp.mpf(1e-9) * abs(value)
+            ratio = None
+        else:
+            # recombined segments: middle segments are operators, truncated relative to their own internal cuts;
+            # the product of all tensor norms bounds every such product of norms
+            cond = tensor_norm_bound(X) if ev['kind'] == 'parts' else cs
+            bound = A_RUN * U * cond
+            ratio = float(err / (U * cond)) if cond else (0.0 if err == 0 else float('inf'))
+        ok = err <= bound
+        return bool(ok), {'got': str(got), 'exact': self.exact_str(value), 'ratio': ratio,
+                          'relative_error': (float(err / abs(value)) if value else None),
+                          'relative_tolerance': (float(bound / abs(value)) if value else None)}
+
+    def exact_str(self, value):
+        return mp.nstr(mp.ldexp(mp.mpf(value), self.etot), 17)
+
+    def judge_truncate(self, ev, got, X, EX):
+        res, norm = got
+        lo, hi = ev['lo'], ev['hi']
+        op = block_operator(X, lo, hi, limit=3000)
+        if op is None:
+            return True, {'skipped': 'operator too large'}
+        e = sum(EX[r][c] for r in range(X.shape[0]) for c in range(lo, hi))
+        col = np.empty((len(res), 1), dtype=object)
+        for i, t in enumerate(res):
+            col[i, 0] = t
+
+        ran = ev.get('mask') is None or any(ev['mask'])
+
+        def conv(t):
+            if ran:   # the returned mps is normalised: its ladder stays in the float64 range
+                return np.ones((1, 1, 1, 1)) if t is None else np.asarray(t, dtype=float)
+            # pass skipped, mps untouched: the product over the rows of a raw column may leave float64, so mpf entries
+            a = np.empty((1, 1, 1, 1) if t is None else t.shape, dtype=object)
+            flat = a.reshape(-1)
+            for i, v in enumerate([1.0] if t is None else t.reshape(-1)):
+                flat[i] = mp.mpf(float(v))
+            return a
+        try:
+            g = np_states(col, open_west=True, conv=conv)[-1]
+        except Exception as ex:
+            return False, {'why': 'truncated mps does not contract: {!r}'.format(ex)}
+        if g.shape != op.shape:
+            return False, {'why': 'truncated mps has physical legs {} instead of {}'.format(g.shape, op.shape)}
+        try:
+            nm = mp.mpf(norm)
+        except Exception:
+            return False, {'why': 'norm {!r} is not a number'.format(norm)}
+        if not mp.isfinite(nm):
+            return False, {'why': 'norm {} is not finite'.format(norm)}
+        sq, tot = mp.mpf(0), mp.mpf(0)
+        for a, b in zip(g.reshape(-1), op.reshape(-1)):
+            d = mp.ldexp(mp.mpf(a) * nm, -e) - int(b)
+            sq += d * d
+            tot += mp.mpf(int(b)) ** 2
+        err, nrm = mp.sqrt(sq), mp.sqrt(tot)
+        ratio = float(err / (U * nrm)) if nrm else (0.0 if err == 0 else float('inf'))
+        return bool(err <= A_RUN * U * nrm), {
+            'ratio': ratio, 'norm_returned': str(norm), 'exact_norm': mp.nstr(mp.ldexp(nrm, e), 17),
+            'why': 'norm * truncated mps differs from the mps (Frobenius norm of the difference / norm of the mps = '
+                   '{})'.format(mp.nstr(err / nrm, 5) if nrm else 'inf')}
+
+
+def gen_profile(rng, R, C):
+    """matrix of decimal scale exponents, one per tensor"""
+    K = [[0] * C for _ in range(R)]
+    kind = rng.choice(['columns', 'columns', 'rows', 'pair', 'pair', 'tensor', 'columns+pair'])
+    amps = [17, 20, 30, 60, 60, 100, 120, 140]
+
+    def lines(n, setk):
+        for _ in range(rng.choice([1, 1, 2])):
+            if n < 2:
+                return
+            a = rng.choice(amps if rng.random() < 0.4 else [100, 120, 140])
+            # mostly interior lines: then the first pair and the last line of either sweep direction stay moderate
+            pool = list(range(1, n - 1)) if n >= 4 and rng.random() < 0.7 else list(range(n))
+            i, j = rng.sample(pool, 2)
+            if rng.random() < 0.4 and len(pool) >= 3:   # the compensation split over two lines
+                l = rng.choice([x for x in pool if x not in (i, j)])
+                h = a // 2
+                setk(i, -h); setk(l, -(a - h)); setk(j, a)
+            else:
+                setk(i, -a); setk(j, a)
+    if kind in ('columns', 'columns+pair'):
+        def setc(c, a):
+            for r in range(R):
+                K[r][c] += a
+        lines(C, setc)
+    if kind == 'rows':
+        def setr(r, a):
+            for c in range(C):
+                K[r][c] += a
+        lines(R, setr)
+    if kind in ('pair', 'columns+pair') and R * C >= 2:
+        a = rng.choice(amps)
+        (r1, c1), (r2, c2) = rng.sample([(r, c) for r in range(R) for c in range(C)], 2)
+        K[r1][c1] -= a; K[r2][c2] += a
+    if kind == 'tensor':
+        tot = 0
+        for r in range(R):
+            for c in range(C):
+                K[r][c] = rng.randint(-40, 40); tot += K[r][c]
+        K[rng.randrange(R)][rng.randrange(C)] -= max(-100, min(100, tot))
+    for r in range(R):
+        for c in range(C):
+            K[r][c] = max(-SQ_LIMIT, min(SQ_LIMIT, K[r][c] + (rng.randint(-2, 2) if rng.random() < 0.3 else 0)))
+    return kind, K
+
+
+def running_settings(rng, X):
+    """truncation settings under which the QR/SVD pass RUNS (tol is truthy) and discards nothing"""
+    R, C = X.shape
+    cap = max_bond_cap(X)
+    some = [[rng.random() < 0.5 for _ in range(C)] for _ in range(R)]
+    some[rng.randrange(R)][rng.randrange(C)] = True
+    t300, tmin, t200 = (1e-300).hex(), (5e-324).hex(), (1e-200).hex()
+    return [
+        ('tol=1e-300', dict(tol=t300)),
+        ('tol=5e-324', dict(tol=tmin)),
+        ('tol=1e-300,chi=maxbond', dict(tol=t300, chi=cap)),
+        ('tol=1e-300,chi=maxbond+1', dict(tol=t300, chi=cap + 1)),
+        ('tol=1e-300,chi=large,mask=some', dict(tol=t300, chi=cap + 7, mask=some)),
+        ('tol=1e-200,mask=all', dict(tol=t200, mask=[[True] * C for _ in range(R)])),
+    ]
+
+
+def net_desc(tn):
+    return {'shape': '{}x{}'.format(*tn.shape),
+            'tensors': [None if t is None else {'shape': list(t.shape), 'data': [float(x).hex() for x in t.flatten()]}
+                        for t in tn.flatten()]}
+
+
+def net_from_desc(d):
+    R, C = (int(x) for x in d['shape'].split('x'))
+    tn = np.empty((R, C), dtype=object)
+    for i, t in enumerate(d['tensors']):
+        tn[i // C, i % C] = None if t is None else np.array([float.fromhex(x) for x in t['data']]).reshape(t['shape'])
+    return tn
+
+
+def gen_mag_net(rng):
+    R, C = rng.choice([(2, 3), (2, 4), (3, 3), (3, 4), (3, 4), (3, 5), (4, 4), (4, 4), (4, 5), (5, 4), (6, 4), (4, 6),
+                       (5, 5), (3, 6), (2, 6)])
+    if R * C <= 12 and rng.random() < 0.35:
+        tn, info = gen_net(rng, R, C, 'float64', 'pos', pad=rng.random() < 0.2, exact_guard=False,
+                           bonds=mixed_bonds(2e4, 600))
+    else:
+        tn, info = gen_net(rng, R, C, 'float64', 'pos', maxbond=rng.choice([2, 2, 3]) if R * C <= 16 else 2,
+                           pad=rng.random() < 0.2, exact_guard=False)
+    kind, K = gen_profile(rng, R, C)
+    for r in range(R):
+        for c in range(C):
+            t = tn[r, c]
+            if t is not None:
+                t *= np.array([rng.uniform(0.1, 2.0) for _ in range(t.size)]).reshape(t.shape)
+                t *= 10.0 ** K[r][c]
+    return tn, kind, K
+
+
+def mag_plan(rng, tn):
+    """the evaluations of one network: both orientations; without truncation and under running no-op settings;
+    full sweeps both ways, every split, one recombination of segments, truncate on one raw column and on the first
+    column pair"""
+    from qecsim.tensortools import mps2d
+    plan = []
+    for transposed in (False, True):
+        X = mps2d.transpose(tn) if transposed else tn
+        R, C = X.shape
+        base = {'transposed': transposed}
+        if any(t is None for t in tn.flatten()) and transposed:
+            continue   # padded columns become non-contiguous rows
+        settings = running_settings(rng, X)
+        chosen = [settings[0]] + rng.sample(settings[1:], 2)
+        for name, kw in [('none', {})] + chosen:
+            b = dict(base, setting=name, **kw)
+            for step in (None, -1):
+                plan.append(dict(b, kind='full', step=step))
+            for k in range(1, C):
+                plan.append(dict(b, kind='split', k=k))
+            parts = partitions(C, 4)
+            if parts:
+                cuts = rng.choice(parts)
+                sps = [list(rng.choice(range_spellings(lo, hi, C))) for lo, hi in zip(cuts, cuts[1:])]
+                plan.append(dict(b, kind='parts', sps=sps, assoc=rng.choice(['left', 'right'])))
+        for name, kw in rng.sample(settings, 2):
+            kw = dict(kw)
+            c = rng.randrange(C)
+            for lo, hi in ((c, c + 1), (0, min(2, C))):
+                k1 = dict(kw)
+                if k1.get('mask') is not None:
+                    k1['mask'] = [row[lo] for row in k1['mask']]
+                plan.append(dict(base, setting=name, kind='truncate', lo=lo, hi=hi, **k1))
+    return plan
+
+
+def magnitude_explore(ctx):
+    rng = ctx.rng
+    n = ctx.scale(100, 800)
+    evals, worst_ratio, failures, type_failures = 0, 0.0, [], []
+    for _ in range(n):
+        tn, kind, K = gen_mag_net(rng)
+        ctx.count('mag_profile', kind)
+        ctx.count('mag_has_tensor_below_1e-16', int(any(k <= -17 for row in K for k in row)))
+        K10 = dec_exp(tn)
+        K10T = [list(x) for x in zip(*K10)]
+        oracle = MagOracle(tn)
+        desc = None
+        for ev in mag_plan(rng, tn):
+            worst = mag_domain(K10T if ev['transposed'] else K10, ev)
+            tag = ev['kind'] + (':running' if ev.get('tol') is not None else ':plain')
+            if worst is None:
+                ctx.count('mag_outside_float_domain', tag)
+                continue
+            ctx.count('mag_eval', tag)
+            if ev.get('tol') is not None:
+                ctx.count('mag_column_norm_outside_float64', int(worst > 305))
+            evals += 1
+            try:
+                with core.TimeLimit(60):
+                    got, types = mag_eval(tn, ev)
+                ok, detail = oracle.judge(ev, got)
+            except core.TimeLimit.Expired:
+                ok, detail, types = False, {'why': 'no result within 60 s'}, []
+            except (ValueError, TypeError, AssertionError, IndexError, ArithmeticError, np.linalg.LinAlgError) as ex:
+                ok, detail, types = False, {'why': 'raised {!r}'.format(ex)}, []
+            if detail.get('ratio') is not None and ok:
+                worst_ratio = max(worst_ratio, detail['ratio'])
+            if not ok or types:
+                desc = desc or net_desc(tn)
+                rec = {'net': desc, 'eval': ev, 'profile': kind, 'scale_exponents': K, 'detail': detail,
+                       'types': types}
+                (failures if not ok else type_failures).append(rec)
+    # the literal statement of the property first: full sweeps, then splits, recombined segments, truncate itself
+    failures.sort(key=lambda rec: ['full', 'split', 'parts', 'truncate'].index(rec['eval']['kind']))
+    what = {'full': 'the full contraction', 'split': 'the split-and-recombined contraction',
+            'parts': 'the contraction recombined from consecutive column segments',
+            'truncate': 'norm * truncated MPS returned by truncate() on a column state'}
+    for rec in failures[:20]:
+        ev = rec['eval']
+        ctx.monitor_fail(
+            'float network with a magnitude profile ({}; every tensor entry and the value representable): {}{} under the '
+            'truncation setting {} (which discards nothing) differs from the exact {} beyond the conditioning-based '
+            'tolerance'.format(rec['profile'], what[ev['kind']], ' by rows' if ev['transposed'] else '',
+                               ev.get('setting'), 'column state' if ev['kind'] == 'truncate' else 'rational value'),
+            rec, key='mps2d.contract:magnitude:' + ev['kind'] + (':running' if ev.get('tol') is not None else ':plain'))
+    for rec in type_failures[:20]:
+        ctx.monitor_fail('a multiplier / norm that must be an mpmath.mpf (column norms leave the float64 range) is '
+                         'not: ' + '; '.join(rec['types']), rec, key='mps2d.contract:magnitude:type')
+    ctx.explored['magnitude_profiles_and_running_noop_truncation'] = {
+        'evaluations': evals, 'exhaustive': False, 'largest_error_over_u_times_condition': worst_ratio,
+        'tolerance': 'without truncation 1e-9 relative; running pass: {} * 2^-53 * sum_k ||L_k|| ||R_k||'.format(A_RUN),
+        'rule': 'positive float64 networks 2x3 … 6x4 (bonds 1..3, or mixed from {} within a budget), zeros, every tensor '
+                'scaled by 10^k, |k| <= {}: two or three columns / rows / single tensors tiny, compensated elsewhere; both '
+                'orientations; LR / RL / every split / segments in random spellings, and truncate() on a raw column and the '
+                'first column pair; without truncation and with tol in (1e-300, 5e-324, 1e-200) alone, with chi = largest '
+                'bond (+1), with masks; only evaluations whose float64 quantities stay in range (shadow of the documented '
+                'algorithm on decimal exponents) are judged; mpf type of every multiplier / norm'.format(
+                    BOND_SET, SQ_LIMIT)}
+
+
+def boundary_nets():
+    """two fixed 3x4 networks (bonds 2, entries in [0.5, 1.5]) just beyond the magnitude class above: ONE tensor scaled
+    by 1e-170 (resp. 1e+170), compensated by two tensors scaled by 1e+85 (resp. 1e-85).  Every entry, every norm of a
+    tensor or column state and the value are representable float64 numbers, the plain contraction is exact."""
+    import random
+    out = []
+    for name, k in (('norm-underflow', -170), ('norm-overflow', 170)):
+        rng = random.Random(170)
+        tn = np.empty((3, 4), dtype=object)
+        for r in range(3):
+            for c in range(4):
+                shape = (1 if r == 0 else 2, 1 if c == 3 else 2, 1 if r == 2 else 2, 1 if c == 0 else 2)
+                tn[r, c] = np.array([rng.uniform(0.5, 1.5) for _ in range(shape[0] * shape[1] * shape[2] * shape[3])]
+                                    ).reshape(shape)
+        tn[1, 1] = tn[1, 1] * 10.0 ** k
+        tn[0, 2] = tn[0, 2] * 10.0 ** (-k // 2)
+        tn[2, 2] = tn[2, 2] * 10.0 ** (-k // 2)
+        out.append((name, tn))
+    return out
+
+
+def float_range_boundary(ctx):
+    """beyond |k| = 154 the Frobenius norm of a representable tensor is no longer computed correctly by the real code
+    (sum of squares under- / overflows), so a running no-op truncation pass declares a non-zero state zero (or
+    infinite).  Deterministic probe, reported under a stable key per direction."""
+    for name, tn in boundary_nets():
+        oracle = MagOracle(tn)
+        for ev in ({'kind': 'full', 'step': None, 'transposed': False, 'setting': 'none'},
+                   {'kind': 'full', 'step': None, 'transposed': False, 'setting': 'tol=1e-300', 'tol': (1e-300).hex()}):
+            try:
+                with warnings.catch_warnings():
+                    warnings.simplefilter('ignore')   # numpy: "overflow encountered in dot" is the very finding
+                    got, types = mag_eval(tn, ev)
+                ok, detail = oracle.judge(ev, got)
+            except (ValueError, TypeError, AssertionError, IndexError, ArithmeticError, np.linalg.LinAlgError) as ex:
+                ok, detail = False, {'why': 'raised {!r}'.format(ex)}
+            ctx.count('boundary_' + name, '{}:{}'.format(ev['setting'], 'ok' if ok else 'differs'))
+            if not ok:
+                key = 'mps.left_canonical_form:' + name
+                what = ('one tensor of a 3x4 network scaled by 1e{:+d} (compensated elsewhere; every entry, norm and the '
+                        'value representable; the plain contraction is exact): contract(tn{}) returns {} instead of {}'
+                        .format(-170 if name == 'norm-underflow' else 170, ', tol=1e-300' if ev.get('tol') else '',
+                                detail.get('got'), detail.get('exact')))
+                decided = any(k.get('property') == ctx.pid and k.get('key') == key for k in ctx.known)
+                if decided or os.environ.get('QV_C11_BOUNDARY') == 'strict':
+                    ctx.monitor_fail(what, {'net': net_desc(tn), 'eval': ev, 'detail': detail, 'types': []}, key=key)
+                else:
+                    # outside the magnitude class of the property's check (|k| <= 140) and not yet decided upon
+                    # (known_findings.json has no entry for the key): shown on every run, does not fail the run
+                    print('FINDING-CANDIDATE: property={} {} [{}]'.format(ctx.pid, what, key))
+                    ctx.extra.setdefault('finding_candidates', []).append({'key': key, 'what': what})
+
+
 def float_parts(tn, sps, assoc, tol=None):
     from qecsim.tensortools import mps2d, mps as tt_mps
     ps = [mps2d.contract(tn, start=a, stop=b, step=c, tol=tol) for a, b, c in sps]
@@ -992,6 +1910,9 @@ def std_nets():
         for pad in (False, True):
             for dtype in ('int64', 'object'):
                 out.append(gen_net(rng, R, C, dtype, 'small', maxbond=3 if R * C <= 9 else 2, pad=pad)[0])
+    # wide and narrow bonds mixed in one (cheap) network
+    for (R, C) in [(2, 2), (2, 2), (2, 3), (3, 2), (3, 3), (2, 2), (2, 3), (3, 3)]:
+        out.append(gen_net(rng, R, C, 'int64', 'small', bonds=mixed_bonds(3e3, 400))[0])
     STD_NETS = out
     return out
 
@@ -1009,7 +1930,7 @@ def search(m):
         key = wire_net(tn) + (net_dtype(tn),)
         if key not in _SEARCHED:
             try:
-                py_exact(tn)
+                exact_value(tn)
                 _SEARCHED[key] = property_battery(tn, ranges='all')
             except Exception:
                 _SEARCHED[key] = None
@@ -1049,7 +1970,7 @@ def replay_ranges(tn, inp):
     kw = {}
     if inp.get('setting'):
         kw = dict(noop_settings(random.Random(0), tn, max_bond_cap(tn)))[inp['setting']]
-    exact = py_exact(tn)
+    exact = exact_value(tn)
     sps = [tuple(sp) for sp in inp['ranges']]
     if inp.get('call') == 'parts':
         got = Parts(tn, **kw).combine(sps, inp.get('assoc', 'left'))
@@ -1060,8 +1981,21 @@ def replay_ranges(tn, inp):
     return None if ok else {'what': '{} over ranges {}: got {} exact {}'.format(inp.get('call'), sps, got, exact)}
 
 
+def replay_magnitude(inp):
+    tn = net_from_desc(inp['net'])
+    ev = inp['eval']
+    try:
+        got, types = mag_eval(tn, ev)
+        ok, detail = MagOracle(tn).judge(ev, got)
+    except (ValueError, TypeError, AssertionError, IndexError, ArithmeticError, np.linalg.LinAlgError) as ex:
+        ok, detail, types = False, {'why': 'raised {!r}'.format(ex)}, []
+    return None if ok and not types else {'detail': detail, 'types': types}
+
+
 def replay_float(inp):
     from qecsim.tensortools import mps2d, mps as tt_mps
+    if inp.get('eval'):
+        return replay_magnitude(inp)
     R, C = (int(x) for x in inp['net']['shape'].split('x'))
     tn = np.empty((R, C), dtype=object)
     for i, t in enumerate(inp['net']['tensors']):
